@@ -29,6 +29,10 @@ def main(tier=None):
         mode = rng.choice(["a2b", "b2a", "both", "both"])
         ops += ["full 0", "full 1"]
         base = len(ops) - 2
+        if rng.random() < 0.3:
+            # the exchange happens a long time (8 h 20 min of the nodes' clocks) after the last change: removals are
+            # part of the state however old they are
+            ops += ["off 0 30000000000000", "off 1 30000000000005", "off 2 30000000000003"]
         if mode in ("a2b", "both"):
             ops += ["sync 0 1", "full 1"]
             checks.append(("newer", base, base + 1, len(ops) - 1))
